@@ -44,7 +44,10 @@ for op in OPS:
     for (jn, en) in (('mt_%s_kernel' % op, 'lemma_mt_%s_kernel' % op), ('mt_%s_shortcuts' % op, 'lemma_mt_%s_shortcuts' % op)):
         pr = ['C05', 'C16'] if op in ('div', 'mod') else ['C05']
         if jn in heavy:
-            jobs.append(job(jn, en, props=pr, tier='thorough', timeout=7200))
+            # full 64-bit range: never finished (> 55 min on cadical, minisat2, z3, cvc5): NOT run.  Bounded stand-in: operands below 2^12 in magnitude
+            bits = 6 if jn == 'mt_mult_shortcuts' else 12      # a*b == b*a (the commutes flag) is the hard part of mt_mult_shortcuts; its first/second-argument part is mt_mult_shortcuts_pw
+            jobs.append(job(jn + '_small', en, props=pr, tier='thorough', timeout=3600, defines=['ARITH_SMALL_OPERANDS=%d' % bits], entry='h_' + jn, kind='bounded',
+                            unwind='operands below 2^%d in magnitude (loop-free; bounded in the operand range only)' % bits))
         else:
             jobs.append(job(jn, en, props=pr))
 
@@ -78,7 +81,11 @@ for op in ('mult', 'div', 'mod'):
 for op in ('mult', 'div', 'mod'):
     funcs.append(dict(cls='evplus_' + op, name='apply', file=opfile(op), static=True, sel=r'^const edge_value &av, node_handle an', cname='evplus_%s__apply' % op, argc_key=6))
     # 64-bit multiply / divide / remainder equivalence: thorough tier only (did not finish in 600 s on SAT)
-    jobs.append(job('evplus_%s_kernel' % op, 'lemma_evplus_%s_kernel' % op, props=['C05', 'C16'] if op != 'mult' else ['C05'], tier='thorough', timeout=7200))
+    if op == 'mult':
+        jobs.append(job('evplus_mult_kernel', 'lemma_evplus_mult_kernel', props=['C05'], tier='thorough', timeout=3600))       # ~10 min on cadical
+    else:
+        jobs.append(job('evplus_%s_kernel_small' % op, 'lemma_evplus_%s_kernel' % op, props=['C05', 'C16'], tier='thorough', timeout=3600, defines=['ARITH_SMALL_OPERANDS=12'],
+                        entry='h_evplus_%s_kernel' % op, kind='bounded', unwind='operands below 2^12 in magnitude (loop-free; bounded in the operand range only)'))
 
 for op in ('max', 'min'):
     funcs += [dict(cls='evplus_' + op, name='stopOnEqualArgs', file=opfile(op), static=True), dict(cls='evplus_' + op, name='simplifiesToFirstArg', file=opfile(op), static=True),
